@@ -243,6 +243,12 @@ func Judge(frames []Frame, r Rules) *Verdict {
 			if f.Fin {
 				body := mBuf
 				if mComp {
+					if len(mBuf) == 0 {
+						// a compressed message with a zero-length payload: "00 00 ff ff" alone lacks the
+						// block header byte, so it is not a DEFLATE stream (RFC 7692 senders emit 0x00
+						// for an empty message). RFC 6455 says nothing about it: not judged.
+						v.may("compressed-empty-payload")
+					}
 					var err error
 					body, err = Inflate(mBuf, 0)
 					if err != nil {
